@@ -41,7 +41,7 @@ func init() {
 		Assumptions: []string{"strconv.AppendInt is modelled (sign and digit count case split, digits by div/mod 10); strconv.ParseInt, strings.Reader, bytes.TrimRight run from their SSA bodies", archNote},
 		LevelText:   "Bounded symbolic model checking of the composition Append;Parse: the output bytes are symbolic terms (digit slices of the mantissa words), the parser's character classification is decided on them, and the solver proves that the parsed value equals x for all word values in the bound.",
 		LevelNote:   trusted,
-		Timeout:     map[string]time.Duration{"quick": 150 * time.Second, "thorough": 300 * time.Second},
+		Timeout:     map[string]time.Duration{"quick": 300 * time.Second, "thorough": 300 * time.Second},
 	})
 	Register(&PropDef{
 		ID: "C13", Level: "model_checking", Contracts: "default", DesignRef: "DESIGN.md 5 (C13), A.7",
@@ -75,6 +75,6 @@ func init() {
 		Assumptions: []string{"reference layout written in harness/decimal/c13_format.go (roundAt + digit placement); strconv.AppendInt modelled", archNote},
 		LevelText:   "Bounded symbolic model checking of Append(x, 'e'|'E'|'f'|'g'|'G', P): the printed bytes (symbolic digit terms) are proved equal to the reference layout of x rounded once under x's mode at the requested position, for all values in the bound.",
 		LevelNote:   "Partial: Format's layout is decided for fixed magnitudes only. " + trusted,
-		Timeout:     map[string]time.Duration{"quick": 150 * time.Second, "thorough": 300 * time.Second},
+		Timeout:     map[string]time.Duration{"quick": 300 * time.Second, "thorough": 300 * time.Second},
 	})
 }
